@@ -725,6 +725,12 @@ def addDecl (s : State) (d : QDecl) : Except PyExc State :=
   if s.decls.any (fun x => ieq x.name d.name) then .error .valueError
   else .ok { s with decls := s.decls ++ [d] }
 
+/-- mirrors pywbem_mock/_wbemconnection_mock.py: FakedWBEMConnection.add_cimobjects (CIMInstance
+    branch): an instance whose path (class name up to case, key) is already stored is refused -/
+def addInstance (s : State) (i : Inst) : Except PyExc State :=
+  if s.insts.any (fun x => ieq x.cls i.cls && x.key == i.key) then .error .valueError
+  else .ok { s with insts := s.insts ++ [i] }
+
 def step (s : State) (op : Op) : State × Out :=
   match op with
   | .create c => match createClass s c with | .ok s' => (s', .done) | .error e => (s, .err e)
@@ -735,7 +741,7 @@ def step (s : State) (op : Op) : State × Out :=
   | .enumNames cn d => match enumClassNames s cn d with | .ok l => (s, .names l) | .error e => (s, .err e)
   | .enumClasses cn d f => match enumClasses s cn d f with | .ok l => (s, .classes l) | .error e => (s, .err e)
   | .supers n => match superNames s.classes n with | .ok l => (s, .names l) | .error e => (s, .err e)
-  | .addInst i => ({ s with insts := s.insts ++ [i] }, .done)
+  | .addInst i => match addInstance s i with | .ok s' => (s', .done) | .error e => (s, .err e)
   | .enumInsts n => match enumInsts s n with | .ok l => (s, .insts l) | .error e => (s, .err e)
   | .addDecl d => match addDecl s d with | .ok s' => (s', .done) | .error e => (s, .err e)
   | .mofCreate c => match mofCreateClass s c with | .ok s' => (s', .done) | .error e => (s, .err e)
